@@ -214,6 +214,111 @@ def judge_walks(walks, ev, rep, tmp, name):
                            'graph': c['S'] if c['n'] < 12 else None})
 
 
+# ---- the forest as a set of labelled families (EarleyForest.tla / TraceForest.tla) -----------------------------------------
+FOREST_CFG = 'SPECIFICATION Spec\nINVARIANT VerdictOk\nCHECK_DEADLOCK FALSE\n'
+
+
+def forest_fams(root, ridx):
+    """every family reachable from the root: [node, rule, left, right], node = [kind, [name, rule, dot], start, end]"""
+    def node(n):
+        if n is None:
+            return ['none', ['', 0, 0], 0, 0]
+        if hasattr(n, 'token'):
+            t = n.token
+            return ['tok', [str(t.type), 0, 0], t.start_pos, t.end_pos]
+        if n.is_intermediate:
+            rule, ptr = n.s
+            return ['sym', ['', ridx[rule], ptr], n.start, n.end]
+        return ['sym', [str(n.s.name), 0, 0], n.start, n.end]
+    out, seen, stack = [], set(), [root]
+    while stack:
+        n = stack.pop()
+        if n is None or hasattr(n, 'token') or id(n) in seen:
+            continue
+        seen.add(id(n))
+        for pk in n.children:
+            out.append([node(n), ridx[pk.rule], node(pk.left), node(pk.right)])
+            stack.append(pk.left)
+            stack.append(pk.right)
+    return out
+
+
+def observe_forest(spec):
+    """BNF grammars without derivation cycles, lexer='basic': the real forest families per accepted input"""
+    import logging
+    logging.disable(logging.CRITICAL)
+    from lark import Lark
+    from lark.exceptions import UnexpectedInput
+    gtext = E.grammar_text(spec['G'])
+    out = {'gtext': gtext, 'items': [], 'skip': ''}
+    try:
+        with O.budget(30):
+            p = Lark(gtext, parser='earley', lexer='basic', ambiguity='forest')
+    except Exception as ex:
+        out['skip'] = type(ex).__name__
+        return out
+    brules = [(str(r.origin.name), [str(x.name) for x in r.expansion]) for r in p.rules]
+    if E.deriv_cyclic(brules):
+        out['skip'] = 'derivation cycle'
+        return out
+    ridx = {r: i + 1 for i, r in enumerate(p.rules)}
+    out['rules'] = [{'lhs': l, 'rhs': r} for l, r in brules]
+    for w in spec['inputs']:
+        text = E.to_text(w)
+        try:
+            with O.budget(20):
+                root = p.parse(text)
+                fams = forest_fams(root, ridx)
+        except UnexpectedInput:
+            continue
+        except (Exception, O.Hang):
+            continue
+        if len(fams) <= 400:
+            out['items'].append({'w': list(w), 'text': text, 'fams': fams})
+    return out
+
+
+def forest_phase(tier, rng, ev, tmp):
+    """drift level: an internal projection (the labelled families), not the statement"""
+    L = 3 if tier == 'quick' else 4
+    res = C.tlc('MC_EarleyForest', 'SPECIFICATION Spec\nCONSTANTS\n MaxRules = 3\n MaxLen = %d\nINVARIANT ForestExact\nINVARIANT NoDuplicate\n'
+                'INVARIANT AcceptsIffDerivable\nCHECK_DEADLOCK FALSE\n' % L, timeout=3000)
+    C.tlc_must_run(res, 'MC_EarleyForest')
+    ev.add_tlc('MC_EarleyForest R=3 L=%d (the forest stands for the derivations, each once)' % L, res, 'design')
+    if not res.ok:
+        raise C.MachineryFailure('MC_EarleyForest: %s violated' % res.violated)
+    sps = []
+    Gs = list(F.bnf_family(3))
+    for Gb in F.sample(Gs, C.scale(700 if tier == 'quick' else 6000), rng):
+        sps.append({'G': E.from_bnf(Gb), 'inputs': F.enriched_inputs(Gb, 3, extra_len=1, rng=rng)})
+    for Gb in F.rand_family(C.scale(250 if tier == 'quick' else 2500), rng):
+        sps.append({'G': E.from_bnf(Gb), 'inputs': F.enriched_inputs(Gb, 2, extra_len=3, rng=rng, alphabet=('X', 'Y', 'Z'))})
+    got = [c for c in C.pmap(observe_forest, sps) if not c['skip']]
+    items = [dict(it, rules=c['rules'], gtext=c['gtext']) for c in got for it in c['items']]
+    ev.count('forests_compared_with_the_machine', len(items))
+    ev.count('forest_families_compared', sum(len(it['fams']) for it in items))
+    CH = 1500
+    paths = [C.write_batch({'cases': [{'rules': it['rules'], 'w': it['w'], 'fams': it['fams']} for it in items[off:off + CH]]}, tmp, 'c20_forest_%d.json' % off)
+             for off in range(0, len(items), CH)]
+    results = C.tlc_parallel('TraceForest', FOREST_CFG, paths, continue_=True, timeout=3000)
+    drift = []
+    for pi, res in enumerate(results):
+        C.tlc_must_run(res, 'TraceForest')
+        ev.add_tlc('TraceForest', res, 'trace')
+        os.remove(paths[pi])
+        for v in sorted(set(tuple(x) for x in res.verdicts)):
+            it = items[pi * CH + int(v[0]) - 1]
+            drift.append({'clause': v[2], 'grammar': it['gtext'], 'text': it['text']})
+    ev.cov['drift'] = ev.cov.get('drift', 0) + len(drift)
+    ev.cov['drift_samples'] = ev.cov.get('drift_samples', []) + drift[:3]
+    if drift:
+        print('DRIFT property=%s %d real forest(s) differ from the forest of EarleyForest.tla (not a violation by itself; first: %s)'
+              % (PID, len(drift), json.dumps(drift[0])[:300]))
+    if len(items) < (1500 if C.scale(100) == 100 else 5):
+        raise C.MachineryFailure('vacuity (forest families): %d forests' % len(items))
+    return drift
+
+
 def specs(tier, rng):
     out = []
     Gs = list(F.bnf_family(3))
@@ -284,6 +389,7 @@ def body(tier, seed, replay):
         c03.judge(PID, cases, ev, rep, tmp, 'forest')
         judge_walks(walks, ev, rep, tmp, 'real')
         judge_walks(syn, ev, rep, tmp, 'synthetic')
+        forest_phase(tier, rng, ev, tmp)
         if ev.cov['counts'].get('ambiguous_forests', 0) < 300 or ev.cov['counts'].get('walks_reporting_cycles', 0) < 20:
             raise C.MachineryFailure('vacuity: %s' % ev.cov['counts'])
         ev.assumptions += ['unshaped derivations are taken over lark\'s compiled rules (C03 judges the compilation itself)']
